@@ -95,3 +95,122 @@ def split_complex_sqrt(expr, tr):
     if re_else is None:
         raise core.Untranslatable("ComplexSqrt definition without a default branch")
     return ("ite", re_br, re_else), ("ite", im_br, im_else), tr(expr.args[0])
+
+
+# --------------------------------------------------------------------------- the helicity-frame chain
+
+
+class ChainReader(ArrayReader):
+    """`ArrayReader` that also reads `ArrayMultiplication(BoostZMatrix, RotationYMatrix,
+    RotationZMatrix, p)` per event, as a chain of matrix-vector products of the library's own
+    explicit matrices, every non-trivial matrix entry and every intermediate vector being a named
+    generated definition (so that theorems can talk about them one at a time)."""
+
+    def __init__(self, params):
+        super().__init__()
+        self.params = list(params)
+        self.registered: dict = {}
+
+    def vec(self, e, tr):
+        if e in self.registered:
+            return [("app", n, [("sym", p) for p in self.params]) for n in self.registered[e]]
+        return super().vec(e, tr)
+
+    def __call__(self, e, tr):
+        ae = self.ae
+        from ampform.kinematics import lorentz as lz
+
+        if type(e) is ae.ArrayAxisSum:
+            arr, axis = e.args
+            if axis == 1 and isinstance(arr, sp.Pow) and arr.args[1] == 2 and type(arr.args[0]) is lz.ThreeMomentum:
+                v = self.vec(arr.args[0].args[0], tr)
+                return ("add", [("pow", v[k], 2, 1) for k in (1, 2, 3)])
+        return super().__call__(e, tr)
+
+
+def chain_definitions(theta_expr, phi_expr, params, prefix="hel"):
+    """Definitions for one real kinematic-variable pair `Theta/Phi(ArrayMultiplication(BoostZMatrix(β),
+    RotationYMatrix(−Θ), RotationZMatrix(−Φ), p))`:
+
+      rzCos rzSin ryCos rySin frGamma frGammaBeta     the non-trivial matrix entries
+      rzE..rzZ, ryE..ryZ, helE..helZ                    the vector after each matrix
+      helCosArg, helTheta, helPhi                       acos argument, Theta(...), Phi(...) unfolded
+
+    plus facts about the layout of the three matrices. Everything that does not have exactly the
+    expected shape aborts (`Untranslatable`)."""
+    from ampform.kinematics import angles as ang
+    from ampform.kinematics import lorentz as lz
+    from ampform.sympy import _array_expressions as ae
+    from ampform.sympy.math import ComplexSqrt
+
+    if type(theta_expr) is not ang.Theta or type(phi_expr) is not ang.Phi or theta_expr.args[0] != phi_expr.args[0]:
+        raise core.Untranslatable("expected Theta(m), Phi(m) of one boosted momentum")
+    am = theta_expr.args[0]
+    if type(am) is not ae.ArrayMultiplication or len(am.args) != 4:
+        raise core.Untranslatable("expected ArrayMultiplication(Bz, Ry, Rz, p)")
+    bz, ry, rz, p = am.args
+    if type(bz) is not lz.BoostZMatrix or type(ry) is not lz.RotationYMatrix or type(rz) is not lz.RotationZMatrix:
+        raise core.Untranslatable("expected BoostZMatrix·RotationYMatrix·RotationZMatrix")
+    reader = ChainReader(params)
+    tr = core.Translator(extra=reader, unfold_unknown=True)
+    RZ, RY = rz.as_explicit(), ry.as_explicit()
+    impl = bz.evaluate()
+    if type(impl) is not lz._BoostZMatrixImplementation or len(impl.args) != 5:  # noqa: SLF001
+        raise core.Untranslatable("BoostZMatrix.evaluate() has an unexpected shape")
+    gamma, gamma_beta = impl.args[1], impl.args[2]
+    BZ = sp.Matrix([[gamma, 0, 0, -gamma_beta], [0, 1, 0, 0], [0, 0, 1, 0], [-gamma_beta, 0, 0, gamma]])
+    explicit = bz.as_explicit().replace(lambda x: type(x) is ComplexSqrt, lambda x: sp.sqrt(x.args[0]))
+    facts = {
+        "BoostZ_layout_matches_as_explicit": bool(explicit == BZ),
+        "RotationY_layout": bool(RY == sp.Matrix([[1, 0, 0, 0], [0, RY[1, 1], 0, RY[1, 3]], [0, 0, 1, 0], [0, -RY[1, 3], 0, RY[1, 1]]])),
+        "RotationZ_layout": bool(RZ == sp.Matrix([[1, 0, 0, 0], [0, RZ[1, 1], -RZ[2, 1], 0], [0, RZ[2, 1], RZ[1, 1], 0], [0, 0, 0, 1]])),
+    }
+    named = {"rzCos": RZ[1, 1], "rzSin": RZ[2, 1], "ryCos": RY[1, 1], "rySin": RY[1, 3],
+             "frGamma": gamma, "frGammaBeta": gamma_beta}
+    docs = {"rzCos": "RotationZMatrix(-Phi(frame)).as_explicit()[1,1]", "rzSin": "RotationZMatrix(-Phi(frame)).as_explicit()[2,1]",
+            "ryCos": "RotationYMatrix(-Theta(frame)).as_explicit()[1,1]", "rySin": "RotationYMatrix(-Theta(frame)).as_explicit()[1,3]",
+            "frGamma": "gamma of BoostZMatrix(|p|/E of the frame).evaluate()", "frGammaBeta": "gamma*beta of BoostZMatrix(...).evaluate()"}
+    defs = [core.Definition(k, params, tr(v.doit()), doc=docs[k]) for k, v in named.items()]
+    sym_args = [("sym", q) for q in params]
+
+    def entry(x):
+        if x == 0:
+            return None
+        if x == 1:
+            return ("num", 1, 1)
+        for k, v in named.items():
+            if x == v:
+                return ("app", k, sym_args)
+            if x == -v:
+                return ("mul", [("num", -1, 1), ("app", k, sym_args)])
+        raise core.Untranslatable(f"matrix entry {x!r} is none of the named entries")
+
+    def matvec(M, v):
+        out = []
+        for r in range(4):
+            terms = []
+            for c in range(4):
+                e = entry(M[r, c])
+                if e is None:
+                    continue
+                terms.append(v[c] if e == ("num", 1, 1) else ("mul", [e, v[c]]))
+            out.append(terms[0] if len(terms) == 1 else ("add", terms))
+        return out
+
+    vec = reader.vec(p, tr)
+    comp = ("E", "X", "Y", "Z")
+    for stage, M, doc in (("rz", RZ, "after RotationZMatrix(-Phi(frame))"), ("ry", RY, "… then RotationYMatrix(-Theta(frame))"),
+                          (prefix, BZ, "… then BoostZMatrix(beta(frame)): the momentum in the helicity frame")):
+        new = matvec(M, vec)
+        names = [stage + c for c in comp]
+        defs += [core.Definition(n, params, t, doc=f"component {c} {doc}") for n, t, c in zip(names, new, comp)]
+        vec = [("app", n, sym_args) for n in names]
+    reader.registered[am] = [prefix + c for c in comp]
+    th = tr(theta_expr.evaluate())
+    if th[0] != "call" or th[1] != "acos":
+        raise core.Untranslatable("Theta does not unfold to acos(...)")
+    defs.append(core.Definition(prefix + "CosArg", params, th[2][0], doc="the argument of acos in Theta(boosted momentum)"))
+    defs.append(core.Definition(prefix + "Theta", params, ("call", "acos", [("app", prefix + "CosArg", sym_args)]),
+                                doc="Theta(BoostZ·RotY·RotZ·p) unfolded: the real kinematic variable"))
+    defs.append(core.Definition(prefix + "Phi", params, tr(phi_expr.evaluate()), doc="Phi(BoostZ·RotY·RotZ·p) unfolded"))
+    return defs, facts
